@@ -243,6 +243,9 @@ const poolBufsComp = "Pool.bufs"
 const poolArraysComp = "Pool.arrays"
 const bufArrComp = "Buf.arr"
 
+// "Pool.held" (Array Int Bool): the buffer is checked out (Get without a Put yet) by the function under verification
+const poolHeldComp = "Pool.held"
+
 func bufferPtrType(f *Frame) types.Type {
 	for _, pk := range f.vc.prog.prog.AllPackages() {
 		if pk.Pkg.Path() == "bytes" {
@@ -305,6 +308,11 @@ func intrPoolGet(f *Frame, callee *ssa.Function, args []Val, pc string, st *Stat
 	st.heap[bufArrComp] = vc.define("h", "(Array Int Int)", fmt.Sprintf("(store %s %s (ite %s %s (select %s %s)))", ba, r, isNew, farr, ba, r))
 	st.heap[poolArraysComp] = vc.define("h", "(Array Int Bool)", fmt.Sprintf("(store %s %s (or %s (select %s %s)))", arrays, farr, isNew, arrays, farr))
 	vc.poolWF(st.heap[poolBufsComp], st.heap[poolArraysComp], st.heap[bufArrComp], na)
+	held := vc.comp(st, poolHeldComp, "(Array Int Bool)")
+	f.noteCompSt(st, poolHeldComp)
+	// a buffer handed out by the pool is not one this function already holds (it would have been put back first)
+	vc.assert(fmt.Sprintf("(not (select %s %s))", held, r))
+	st.heap[poolHeldComp] = vc.define("h", "(Array Int Bool)", fmt.Sprintf("(store %s %s true)", held, r))
 	vc.nonNil[r] = true
 	bt := bufferPtrType(f)
 	return Val{T: f.box(Val{T: r, Typ: bt}, bt), Typ: callee.Signature.Results().At(0).Type()}, pc
@@ -321,6 +329,11 @@ func intrPoolPut(f *Frame, callee *ssa.Function, args []Val, pc string, st *Stat
 	// only buffers that came out of a pool go back into one (otherwise a caller-owned array would join
 	// the subsystem)
 	f.must(pc, "poolput", posOf(ins, f), fmt.Sprintf("(select %s (%s %s))", bufs, unbox, args[1].T), "the buffer put into the pool came out of a pool")
+	// ... and is still checked out: putting it back twice would make the pool hand the same buffer to two users
+	held := vc.comp(st, poolHeldComp, "(Array Int Bool)")
+	f.must(pc, "poolput-once", posOf(ins, f), fmt.Sprintf("(select %s (%s %s))", held, unbox, args[1].T), "the buffer put into the pool is checked out by this function (not put back twice)")
+	f.noteCompSt(st, poolHeldComp)
+	st.heap[poolHeldComp] = vc.define("h", "(Array Int Bool)", fmt.Sprintf("(store %s (%s %s) false)", held, unbox, args[1].T))
 	return Val{}, pc
 }
 
